@@ -43,6 +43,17 @@ TAdd == /\ l <= N /\ Tr[l].e = "A"
                    ELSE /\ Bad("C11,C19", "add returned another index / size than the de-duplicating table, or the entry at that index is not the value added", ev)
                         /\ UNCHANGED abs
 
+(* add_value: appended unconditionally (as the reader does with the entries of a file) *)
+TAddValue == /\ l <= N /\ Tr[l].e = "AV"
+             /\ l' = l + 1 /\ UNCHANGED <<execs, ctx>>
+             /\ IF lost THEN UNCHANGED <<abs, lost, viol>>
+                ELSE LET ev == Tr[l]
+                         a  == AbsAddValue(abs[ev.t], ev.v)
+                     IN IF ev.idx = a.idx /\ ev.size = Len(a.items) /\ ev.back = ev.v
+                        THEN abs' = [abs EXCEPT ![ev.t] = a.items] /\ UNCHANGED <<lost, viol>>
+                        ELSE /\ Bad("C11,C19", "add_value did not append the value at the end of the table", ev)
+                             /\ UNCHANGED abs
+
 TClear == /\ l <= N /\ Tr[l].e \in {"CL", "DS"}
           /\ l' = l + 1 /\ UNCHANGED <<execs, ctx, lost, viol>>
           /\ abs' = [abs EXCEPT ![Tr[l].t] = <<>>]
@@ -72,7 +83,7 @@ TEnd == /\ l <= N /\ Tr[l].e = "END"
         /\ ndJsonSerialize(IOEnv.OUT, <<[execs |-> execs, events |-> N, viol |-> viol, drift |-> <<>>]>>)
         /\ l' = l + 1 /\ UNCHANGED <<abs, lost, viol, execs, ctx>>
 
-TraceNext == TReset \/ TAdd \/ TClear \/ TCopy \/ TFinal \/ TCrash \/ TEnd
+TraceNext == TReset \/ TAdd \/ TAddValue \/ TClear \/ TCopy \/ TFinal \/ TCrash \/ TEnd
 TraceSpec == TraceInit /\ [][TraceNext]_tvars
 TraceConsumed == TLCGet("stats").diameter - 1 = N
 =============================================================================
